@@ -75,6 +75,7 @@ type State struct {
 	dead     bool
 	nobl     int
 	loopSeen map[*ssa.BasicBlock]bool
+	sliceBase map[string]sliceBaseInfo
 }
 
 func (st *State) clone() *State {
@@ -116,6 +117,10 @@ func (st *State) clone() *State {
 		n.loopSeen[k] = v
 	}
 	n.trail = append([]string(nil), st.trail...)
+	n.sliceBase = make(map[string]sliceBaseInfo, len(st.sliceBase))
+	for k, v := range st.sliceBase {
+		n.sliceBase[k] = v
+	}
 	return n
 }
 
@@ -154,6 +159,14 @@ func (st *State) family(name string, args []Sort, res Sort) *Family {
 	st.fams[name] = f
 	sym := sanitize(name) + "@0"
 	st.sc.declFun(sym, args, res)
+	if strings.HasPrefix(name, "E.") {
+		// element families are keyed by (slice value, relative index); the
+		// initial version is tied to an array-level function so that slices
+		// sharing an array agree on its cells
+		base := "A." + sanitize(name[2:])
+		st.sc.declFun(base, []Sort{SInt, SInt}, res)
+		st.sc.emit("(assert (forall ((a Int) (o Int) (i Int)) (! (= (%[1]s a o i) (%[2]s a (+ o i))) :pattern ((%[1]s a o i)))))", sym, base)
+	}
 	st.heap[name] = sym
 	if st.entry != nil {
 		if _, ok := st.entry[name]; !ok {
@@ -187,7 +200,7 @@ func (st *State) fieldFam(si *StructInfo, i int) *Family {
 	return st.family(famField(si.Sort, si.Fields[i].Name), []Sort{SInt}, si.Fields[i].Sort)
 }
 func (st *State) cellFam(s Sort) *Family { return st.family(famCell(s), []Sort{SInt}, s) }
-func (st *State) elemFam(s Sort) *Family { return st.family(famElem(s), []Sort{SInt, SInt}, s) }
+func (st *State) elemFam(s Sort) *Family { return st.family(famElem(s), []Sort{SInt, SInt, SInt}, s) }
 func (st *State) mapFams(k, v Sort) (dom, val, ln *Family) {
 	return st.family(famMapDom(k, v), []Sort{SInt, k}, SBool), st.family(famMapVal(k, v), []Sort{SInt, k}, v), st.family(famMapLen(k, v), []Sort{SInt}, SInt)
 }
@@ -197,47 +210,66 @@ func (st *State) readFam(snap map[string]string, f *Family, args ...Term) Term {
 	return app(f.Res, st.symIn(snap, f.Name), args...)
 }
 
-// getElem reads element i of slice s through the slice-relative accessor G of
-// the element family's version in snap. G is linked to the array-level
-// function E in both directions, so that quantified facts stated over s[i]
-// have arithmetic-free patterns and still connect slices that share an array.
+// getElem reads element i of slice s in snapshot snap. Element families are
+// keyed by the slice value and the index relative to it, so quantified
+// contract clauses over s[i] get arithmetic-free patterns; aliasing between
+// slices over one array is resolved in the body of each version's
+// definitional axiom. A slice obtained by re-slicing a known slice is read
+// through its base (translator-level normalisation).
 func (st *State) getElem(snap map[string]string, f *Family, s, i Term) Term {
-	esym := st.symIn(snap, f.Name)
-	g := "G." + esym
-	if !st.sc.declared["fun:"+g] {
-		st.sc.declFun(g, []Sort{SSlice, SInt}, f.Res)
-		st.sc.emit("(assert (forall ((s Slice) (i Int)) (! (= (%[1]s s i) (%[2]s (s-arr s) (+ (s-off s) i))) :pattern ((%[1]s s i)))))", g, esym)
-		st.sc.emit("(assert (forall ((s Slice) (x Int)) (! (= (%[2]s (s-arr s) x) (%[1]s s (- x (s-off s)))) :pattern ((%[2]s (s-arr s) x)))))", g, esym)
+	if b, ok := st.sliceBase[s.S]; ok {
+		return app(f.Res, st.symIn(snap, f.Name), slArr(b.Base), slOff(b.Base), add(b.Delta, i))
 	}
-	return app(f.Res, g, s, i)
+	return app(f.Res, st.symIn(snap, f.Name), slArr(s), slOff(s), i)
+}
+
+// elemParams: array id and absolute index of the definitional-axiom parameters of an element family
+func elemAbs(p []Term) (arr, abs Term) { return p[0], add(p[1], p[2]) }
+
+type sliceBaseInfo struct {
+	Base  Term
+	Delta Term
+}
+
+// updateElems: cells [lo,hi) (absolute) of array arr get valAt(abs); guard may restrict further.
+func (st *State) updateElems(f *Family, arr, lo, hi Term, guard Term, valAt func(abs Term) Term) {
+	st.updateFamWhere(f, func(p []Term) Term {
+		a, abs := elemAbs(p)
+		return and(guard, eq(a, arr), le(lo, abs), lt(abs, hi))
+	}, func(p []Term) Term { _, abs := elemAbs(p); return valAt(abs) })
 }
 
 // writeFam: new version with one point updated
 func (st *State) writeFam(f *Family, args []Term, val Term) {
-	old := st.heap[f.Name]
-	nv := st.newVersion(f.Name)
-	var params []Term
-	var conds []Term
-	for i, a := range f.Args {
-		p := Term{fmt.Sprintf("x%d", i), a}
-		params = append(params, p)
-		conds = append(conds, eq(p, args[i]))
-	}
-	body := ite(and(conds...), val, app(f.Res, old, params...))
-	st.sc.defineFun(nv, params, f.Res, body)
-	st.heap[f.Name] = nv
+	st.updateFamWhere(f, func(p []Term) Term {
+		var conds []Term
+		for i := range p {
+			conds = append(conds, eq(p[i], args[i]))
+		}
+		return and(conds...)
+	}, func(p []Term) Term { return val })
 }
 
-// updateFamWhere: F'(x..) = ite(cond(x..), newval(x..), F(x..))
+// updateFamWhere: F'(x..) = ite(cond(x..), newval(x..), F(x..)). The new
+// version is a declared function with a definitional axiom triggered on its
+// own applications (not a define-fun macro: macros expand to ite terms, which
+// cannot occur in the patterns of quantified contract clauses).
 func (st *State) updateFamWhere(f *Family, cond func(params []Term) Term, val func(params []Term) Term) {
 	old := st.heap[f.Name]
 	nv := st.newVersion(f.Name)
 	var params []Term
+	var binders []string
 	for i, a := range f.Args {
-		params = append(params, Term{fmt.Sprintf("x%d", i), a})
+		p := Term{fmt.Sprintf("x%d", i), a}
+		params = append(params, p)
+		binders = append(binders, fmt.Sprintf("(%s %s)", p.S, a))
 	}
 	body := ite(cond(params), val(params), app(f.Res, old, params...))
-	st.sc.defineFun(nv, params, f.Res, body)
+	st.sc.declFun(nv, f.Args, f.Res)
+	lhs := app(f.Res, nv, params...)
+	// two alternative triggers: a read of the new version, or a read of the
+	// previous version (so facts found for old-state terms carry forward)
+	st.sc.emit("(assert (forall (%s) (! (= %s %s) :pattern (%s) :pattern (%s))))", strings.Join(binders, " "), lhs.S, body.S, lhs.S, app(f.Res, old, params...).S)
 	st.heap[f.Name] = nv
 }
 
@@ -309,10 +341,7 @@ func (st *State) loadLoc(snap map[string]string, l Loc) Term {
 		return st.applyPath(st.readFam(snap, f, l.Obj), l.Path)
 	case LElem:
 		f := st.fams[l.Fam]
-		if l.Sl != nil {
-			return st.applyPath(st.getElem(snap, f, *l.Sl, *l.Rel), l.Path)
-		}
-		return st.applyPath(st.readFam(snap, f, l.Obj, l.Idx), l.Path)
+		return st.applyPath(st.getElem(snap, f, *l.Sl, *l.Rel), l.Path)
 	}
 	panic("loadLoc: unsupported loc kind")
 }
@@ -335,9 +364,9 @@ func (st *State) storeLoc(l Loc, v Term) {
 	case LElem:
 		f := st.fams[l.Fam]
 		if len(l.Path) > 0 {
-			v = st.updatePath(st.readFam(st.heap, f, l.Obj, l.Idx), l.Path, v)
+			v = st.updatePath(st.getElem(st.heap, f, *l.Sl, *l.Rel), l.Path, v)
 		}
-		st.writeFam(f, []Term{l.Obj, l.Idx}, v)
+		st.updateElems(f, l.Obj, l.Idx, add(l.Idx, intLit(1)), tTrue, func(abs Term) Term { return v })
 	default:
 		panic("storeLoc: unsupported loc kind")
 	}
@@ -377,7 +406,7 @@ func (st *State) assumeWellFormed(v Term, t types.Type) {
 	case *types.Basic:
 		st.assumeRange(v, t)
 	case *types.Slice:
-		st.sc.assert(T(SBool, "(and (<= 0 (s-off %[1]s)) (<= 0 (s-len %[1]s)) (<= (s-len %[1]s) (s-cap %[1]s)) (<= 0 (s-arr %[1]s)) (< (s-arr %[1]s) %[2]s) (=> (= (s-arr %[1]s) 0) (and (= (s-cap %[1]s) 0) (= (s-off %[1]s) 0))) (<= (+ (s-off %[1]s) (s-cap %[1]s)) 4611686018427387904))", v.S, st.alloc.S))
+		st.sc.assert(T(SBool, "(and (<= 0 (s-off %[1]s)) (<= 0 (s-len %[1]s)) (<= (s-len %[1]s) (s-cap %[1]s)) (<= 0 (s-arr %[1]s)) (< (s-arr %[1]s) %[2]s) (=> (= (s-arr %[1]s) 0) (and (= (s-cap %[1]s) 0) (= (s-off %[1]s) 0))) (<= (+ (s-off %[1]s) (s-cap %[1]s)) 281474976710656))", v.S, st.alloc.S))
 	case *types.Pointer, *types.Map, *types.Signature:
 		st.sc.assert(T(SBool, "(and (<= 0 %[1]s) (< %[1]s %[2]s))", v.S, st.alloc.S))
 	case *types.Struct:
@@ -393,4 +422,22 @@ func (st *State) assumeWellFormed(v Term, t types.Type) {
 		_ = tt
 		st.sc.assert(T(SBool, "(and (<= 0 (i-type %[1]s)) (=> (= (i-type %[1]s) 0) (= (i-val %[1]s) 0)))", v.S))
 	}
+}
+
+// noteSubslice records that slice value sub is s[lo:...]: reads through sub
+// are normalised to reads through the base of s.
+func (st *State) noteSubslice(sub, s, lo Term) {
+	if lo.S == "0" {
+		if b, ok := st.sliceBase[s.S]; ok {
+			st.sliceBase[sub.S] = b
+		} else {
+			st.sliceBase[sub.S] = sliceBaseInfo{Base: s, Delta: intLit(0)}
+		}
+		return
+	}
+	if b, ok := st.sliceBase[s.S]; ok {
+		st.sliceBase[sub.S] = sliceBaseInfo{Base: b.Base, Delta: add(b.Delta, lo)}
+		return
+	}
+	st.sliceBase[sub.S] = sliceBaseInfo{Base: s, Delta: lo}
 }
